@@ -24,7 +24,7 @@ TIERS = {'quick': {'runs': 3000, 'budget_s': 80}, 'thorough': {'runs': 150000, '
 PROBES = ('own_key_private', 'own_key_protected', 'own_signature', 'own_message', 'own_encrypted', 'relay_accepted', 'relay_rejected',
           'framing_old', 'framing_5octet', 'framing_partial', 'framing_partial_final5', 'framing_indeterminate', 'unknown_tag', 'unknown_version',
           'uid_invalid_utf8', 'uid_not_nfc', 'filename_non_ascii', 'secret_usage255', 'secret_gnu_dummy', 'secret_gnu_card_stub', 'nested_compressed', 'edit_protect_old_format',
-          'edit_add_uid', 'trust_odd_length', 'uattr_two_subpackets', 'uattr_image_header_other_version', 'uattr_image_header_other_length', 'uattr_three_images')
+          'edit_add_uid', 'edit_reprotect_other_cipher', 'trust_odd_length', 'uattr_two_subpackets', 'uattr_image_header_other_version', 'uattr_image_header_other_length', 'uattr_three_images')
 RELAY_KINDS = ['uid', 'uid', 'literal', 'literal', 'sig', 'sig', 'pubkey', 'pubsub', 'seckey', 'secsub', 'pkesk', 'skesk', 'ops', 'compressed',
                'sed', 'seipd', 'mdc', 'marker', 'trust', 'uattr', 'unknown_tag', 'unknown_version']
 
@@ -47,7 +47,7 @@ def generate(rng, tier):
                           'usage_octet': rng.choice([0, 254, 254, 255]), 's2k': rng.choice([0, 1, 3, 3]),
                           'nsub': rng.choice([0, 1, 2, 4]), 'trailing': bytes(rng.randrange(256) for _ in range(rng.choice([0, 2, 9]))).hex()})
         else:
-            steps.append({'id': sid, 'op': 'edit', 'how': rng.choice(['protect_old_format', 'add_uid']), 'keyalg': rng.choice(['p521', 'p384', 'ed25519', 'rsa2048', 'p256']),
+            steps.append({'id': sid, 'op': 'edit', 'how': rng.choice(['protect_old_format', 'add_uid', 'reprotect_other_cipher', 'reprotect_other_cipher']), 'keyalg': rng.choice(['p521', 'p384', 'ed25519', 'rsa2048', 'p256']),
                           'seed': rng.randrange(1 << 30)})
     return {'config': {'start_us': 1_600_000_000_000_000}, 'steps': steps}
 
@@ -410,6 +410,19 @@ def _edit(ctx, pgpy, st, case):
         if st['how'] == 'protect_old_format':
             ctx.probe('edit_protect_old_format')
             k.protect('edited', C.SymmetricKeyAlgorithm.AES256, C.HashAlgorithm.SHA256)
+        elif st['how'] == 'reprotect_other_cipher':
+            # a key protected by another producer (another cipher block size, usage 255, simple or salted S2K), unlocked and
+            # protected anew: the protected part changes size
+            ctx.probe('edit_reprotect_other_cipher')
+            import random as _r
+            r = _r.Random(st['seed'])
+            cid = r.choice([3, 2, 7, 9])
+            prot = {'usage': r.choice([254, 254, 255]), 'cipher': cid, 's2k_type': r.choice([0, 1, 3, 3]), 'hash': 8, 'salt': r.randbytes(8), 'count': 16,
+                    'iv': r.randbytes(ralgo.block_size(cid)), 'passphrase': 'first'}
+            tk2 = bridge.build_ref_tkey(body, alg, secret, uid, 1_500_000_000, secret_export=True, protect=prot)
+            k = pgpy.PGPKey.from_blob(tk2)[0]
+            with k.unlock('first'):
+                k.protect('second', C.SymmetricKeyAlgorithm(r.choice([9, 7, 3, 2, 4])), C.HashAlgorithm.SHA256)
         else:
             ctx.probe('edit_add_uid')
             k.add_uid(pgpy.PGPUID.new('Added Later ' + 'x' * 200, email='al@example.org'), usage={C.KeyFlags.Certify})
